@@ -6,6 +6,7 @@ import json
 import random
 import re
 import struct
+from collections import Counter
 from unittest import mock
 
 from cryptography.hazmat.primitives.asymmetric import ed25519, x25519
@@ -29,16 +30,31 @@ RULE = ("honest exchanges over random records/ephemerals; adversarial M2/M4: eve
         "IP session histories on the simulated network (unpatched IpPairing, genuine accessory slow to answer M1 / M3 by 0..31 s, optionally a relaying man in the middle that answers unencrypted requests itself): "
         "{first connection, session lost by peer close / reset / request time-out / close()} x {pair-verify that succeeds, is refused with any Error value, is forged, stalls or is cut} x callers on every "
         "request entry point at instants before the loss, during the TCP connect, inside the M2 and M4 windows (ends included) and after - a grid over ending x window x entry point plus random histories of 2-4 sessions. "
-        "non-trivial = distinct (mutation class, field, outcome class) / (session endings, call outcomes)")
+        "BLE and CoAP session histories (unpatched BlePairing / CoAPPairing; only the bleak client handed out by establish_connection resp. aiocoap's Context is replaced, by an independent accessory that keeps its "
+        "books per LINK = GATT connection / CoAP endpoint): {session-needing call on every public entry point, alone / concurrent / cancelled inside a request, advertisement-triggered poll, GATT notification, CoAP event} x "
+        "{close(), close_after_operation(), shutdown(), automatic close after a cancelled request / damaged answer / GATT error, link dead without the stack saying so, link lost with its disconnected callback at once or later, "
+        "lost inside a request; disconnect() delivering the callback at once / late / RAISING each exception class the library handles (BleakError, EOFError, BrokenPipeError, TimeoutError, AttributeError); CoAP: request time-out, "
+        "network error, damaged answer, accessory restart (4.04), new endpoint from zeroconf, pair-verify time-out} x {next link answered by the genuine accessory - resuming, refusing to resume, restarted - or by an IMPOSTOR "
+        "without the long-term key: own key, made-up resume reply, refusal, recorded M2, answers in the clear} - a grid ending x who answers next x entry point plus random histories of 2-5 links. "
+        "non-trivial = distinct (mutation class, field, outcome class) / (session endings, call outcomes) / (ending or step kinds, who answered on each link, how each link was proved, call outcomes)")
 TRUSTED = ["reference accessory harness/refacc.py (cryptography)", "Lean Real X25519/Ed25519/HKDF/ChaCha20-Poly1305 (validated against cryptography each run)",
-           "harness/simnet.py virtual-time loop and in-memory transport; harness/acc.py scaffold accessory (real pair-verify, AEAD framing) and its bookkeeping of what arrived on each connection, framed or not"]
+           "harness/simnet.py virtual-time loop and in-memory transport; harness/acc.py scaffold accessory (real pair-verify, AEAD framing) and its bookkeeping of what arrived on each connection, framed or not",
+           "the per-link HAP-BLE / HAP-CoAP accessory and impostor of this file (LinkSide, GattLink, CoapLink: pair-verify and pair-resume from harness/refacc.py, PDU reassembly, per-link AEAD counters) and their books"]
 ASSUMPTIONS = ["unforgeability of Ed25519 and integrity of ChaCha20-Poly1305 (never theorems); the tamper theorems are consequences of the interface laws (Crypto.Laws), proved satisfiable by a toy instance",
                "the controller's ephemeral key is pinned by patching X25519PrivateKey.generate in aiohomekit.protocol",
                "legitimacy oracle: success is expected iff the values the controller actually uses (dict view: last occurrence of each type) are the genuine ones of this exchange; "
                "a reply that carries an Error item is a refusal whatever its value",
                "session histories: a TCP connect takes non-zero (virtual) time; 'the accessory accepted' = the scaffold accessory has sent M4 on that connection; session oracles: nothing but pair-verify POSTs reaches a "
                "connection before its M4, everything after it opens under that session's keys, is_connected/is_available imply an M4 on the connection opened last, a call that returns has been carried by a framed request "
-               "and never returns what the man in the middle sent unencrypted"]
+               "and never returns what the man in the middle sent unencrypted",
+               "BLE / CoAP session histories - oracles, all on the books of whoever answered on each link and on what the harness itself did: on every link nothing but pair-verify / pair-resume requests arrives before the genuine "
+               "accessory has accepted M3 or honoured a resume request ON THAT LINK (never on an impostor's link), whatever arrives afterwards opens under that link's keys and counters, is_connected is never seen True while the link "
+               "opened last is unproved, a call that returns was carried by a request the genuine accessory received under a proved session while the call ran and never contains what an impostor made up, listeners are never handed an "
+               "impostor's data, before the first fault of a history no call fails with an authentication / encryption error, a CoAP event sealed under the proved session's event key is taken as long as every earlier one was",
+               "BLE / CoAP session histories - fault model: a client object whose disconnect() raised fails every later GATT operation the same way; a link that dies by itself and is reported by the stack (is_connected False) gets its disconnected callback before the library next looks at it (bleak clears the flag and calls "
+               "the callback in one handler); only disconnects the library asked for through close() / close_after_operation() / shutdown() / its automatic close may deliver the callback late or never (thread_provision's own disconnect delivers it at once or raises); a late callback is delivered while nothing is in flight; the accessory raises a GATT notification only in a "
+               "session in which it has already received a sealed request and that no stale callback has hit since; on CoAP an impostor takes over new endpoints while old ones fall silent.  What the library does outside this "
+               "fault model is run once per check as unrestricted probes and recorded in the evidence notes (noted, not asserted)"]
 EXPLANATION = "Lean theorems C01_* over the model of get_session_keys with an abstract crypto interface; byte-exact differential tie with executable crypto; adversarial streams judged by an independent accessory"
 
 
@@ -266,6 +282,10 @@ def run(ctx: Ctx, driver: Driver):
     compare_with_model(ctx, "verify-errval", cases[n0:], outs[n0:], lines[n0:], driver)
     resume_error_values(ctx, driver, rng, rb)
     session_stream(ctx, rng)
+    link_stream(ctx, rng)
+    link_probes(ctx)
+    from harness.c01_blemodel import run_blemodel
+    run_blemodel(ctx, driver)
 
 
 DEFINED_ERRORS = (1, 2, 3, 4, 5, 6, 7)  # table 5-5 of the specification: the only codes a name exists for
@@ -947,10 +967,1174 @@ def session_stream(ctx, rng):
                 ctx.violation(sig, text, hist)
 
 
+# ===================================================================== BLE and CoAP sessions over links that come and go
+# One BlePairing / CoAPPairing (unpatched) in front of an independent accessory; only the radio (the bleak client handed out
+# by establish_connection) resp. aiocoap's Context is replaced.  A LINK is one GATT connection resp. one CoAP context (one
+# UDP endpoint: the accessory keeps its sessions per remote endpoint).  Whoever answers on a link - the genuine accessory or
+# an impostor that owns neither the long-term key nor any earlier session secret - keeps its own books per link; every
+# oracle below is stated on those books and on what the harness itself did (which calls it issued and when).
+
+FAULTLESS = ("op", "par", "wait", "event", "notify")  # steps that do nothing to the link, the accessory or the stack
+LINK_EXC = ("BleakError", "EOFError", "BrokenPipeError", "TimeoutError", "AttributeError")  # bleak_retry_connector.BLEAK_RETRY_EXCEPTIONS, the set the library handles
+ADDR = "AA:BB:CC:DD:EE:FF"
+IMPOSTOR_STYLES = ("own-key", "bad-resume", "refuse", "replay", "plain")
+
+
+def link_exc(name, why):
+    from bleak.exc import BleakError
+    return {"BleakError": BleakError, "EOFError": EOFError, "BrokenPipeError": BrokenPipeError, "TimeoutError": TimeoutError, "AttributeError": AttributeError}.get(name, BleakError)(why)
+
+
+class LinkWorld:
+    """what exists independently of any link: the identities, the genuine accessory's resumable secret, who answers next, the order of events"""
+
+    def __init__(self, rnd):
+        self.rb = lambda n: bytes(rnd.randrange(256) for _ in range(n))
+        self.ident = refacc.Identity(self.rb, acc_id=ADDR.encode())
+        # the impostor: same identifier, same address, knows every public key - but not the accessory's long-term secret key
+        self.fake = refacc.Identity(self.rb, acc_id=ADDR.encode(), ios_id=self.ident.ios_id)
+        self.fake.ios_ltsk, self.fake.ios_ltpk = None, self.ident.ios_ltpk
+        self.resume = None        # (session id, shared secret) the genuine accessory would resume from
+        self.honour_resume = True
+        self.recorded_m2 = None   # a genuine M2 as an eavesdropper recorded it
+        self.peer, self.style = "genuine", "own-key"
+        self.sides = []
+        self.seq = 0
+        self.probe = None         # what the pairing reports as "connected" - observed, never used as a reference
+        self.early = []
+        self.notes = []
+        self.delivered = []       # what listeners were handed
+        self.shutdown = False     # the harness has called shutdown()
+        self.faults = {"silent": 0, "neterr": 0, "garble": 0, "vsilent": 0}  # faults that hit the next requests, whichever link carries them
+        self.ioerr = None         # [n, exception class]: the n-th GATT operation from now fails once with that exception (the link stays up)
+
+    def tick(self):
+        self.seq += 1
+        return self.seq
+
+    def new_side(self, aux=False):
+        s = LinkSide(self, len(self.sides), self.peer, self.style)
+        s.aux = aux   # an endpoint the library opens for something that needs no session (CoAP identify / pair-setup of an unpaired accessory)
+        self.sides.append(s)
+        return s
+
+    def observe(self, at):
+        """the pairing may report a session only if whoever answers on the link opened last has been given - and, being the
+        genuine accessory, has accepted - a proof on THAT link (full pair-verify, or a resume request it honoured)"""
+        try:
+            up = bool(self.probe()) if self.probe else False
+        except Exception as e:  # noqa: BLE001
+            n = f"is_connected raised {type(e).__name__}"
+            if n not in self.notes:
+                self.notes.append(n)
+            return
+        sides = [s for s in self.sides if not s.aux]
+        if up and (not sides or sides[-1].proved is None):
+            self.early.append((sides[-1].idx if sides else -1, sides[-1].who if sides else "-", self.tick(), at))
+
+
+class LinkSide:
+    """what the accessory - or the impostor - holds for ONE link: the pair-verify exchange and, once it completed, the session"""
+
+    def __init__(self, world, idx, who, style):
+        self.w, self.idx, self.who, self.style = world, idx, who, style
+        self.va = None
+        self.keys = None      # (controller->accessory, accessory->controller, events) of the session of this link
+        self.rctr = self.wctr = 0
+        self.proved = None    # 'verify' / 'resume': the GENUINE accessory accepted the controller's M3 / honoured its resume request on this link
+        self.plain = []       # (seq, what): session traffic that arrived while there was no session on this link
+        self.unauth = []      # (seq, what): with a session, traffic that does not open under this link's keys
+        self.framed = []      # (seq, opcode, endpoint): requests that arrived under this link's session keys
+        self.verifies = 0
+        self.closed = False
+        self.aux = False
+        self.used = 0
+        self.stale_reset = False  # a disconnected callback owed for ANOTHER link was delivered while this one was up
+        self.all_keys = []    # every key set this link ever had (diagnostics)
+
+    def install(self, shared, how):
+        self.keys = (refacc.hk(shared, b"Control-Salt", b"Control-Write-Encryption-Key"), refacc.hk(shared, b"Control-Salt", b"Control-Read-Encryption-Key"),
+                     refacc.hk(shared, b"Event-Salt", b"Event-Read-Encryption-Key"))
+        self.rctr = self.wctr = 0
+        self.used = 0  # requests received under the keys of the session installed last
+        self.all_keys.append(self.keys)
+        if self.who == "genuine":
+            self.proved = how
+            self.stale_reset = False
+
+    def on_verify(self, req):
+        """HAP 5.7 (and 5.8 pair-resume), accessory side, from refacc only; a new M1 ends whatever session the link had"""
+        from cryptography.exceptions import InvalidTag
+        w = self.w
+        st = req.get(6)
+        if st == b"\x01":
+            self.verifies += 1
+            self.keys, self.proved, self.va = None, None, None
+            ios_pk = req.get(3, b"")
+            resume = req.get(0) == b"\x06"
+            if self.who != "genuine":
+                if self.style == "refuse":
+                    return [(6, b"\x02"), (7, b"\x02")]
+                if self.style == "bad-resume" and resume:
+                    return [(6, b"\x02"), (0, b"\x06"), (14, w.rb(8)), (5, w.rb(16))]
+                if self.style == "replay" and w.recorded_m2:
+                    return list(w.recorded_m2)
+                self.va = refacc.VerifyAccessory(w.fake, w.rb(32))
+                return self.va.m2(ios_pk, ltsk=w.fake.acc_ltsk)
+            if resume and w.honour_resume and w.resume is not None and req.get(14) == w.resume[0] and len(ios_pk) == 32:
+                sid, shared = w.resume
+                try:
+                    ChaCha20Poly1305(refacc.hk(shared, ios_pk + sid, b"Pair-Resume-Request-Info")).decrypt(b"\0\0\0\0PR-Msg01", req.get(5, b""), b"")
+                    ok = True
+                except InvalidTag:
+                    ok = False
+                if ok:
+                    new_sid = w.rb(8)
+                    tag = ChaCha20Poly1305(refacc.hk(shared, ios_pk + new_sid, b"Pair-Resume-Response-Info")).encrypt(b"\0\0\0\0PR-Msg02", b"", b"")
+                    new_shared = refacc.hk(shared, ios_pk + new_sid, b"Pair-Resume-Shared-Secret-Info")
+                    w.resume = (new_sid, new_shared)
+                    self.install(new_shared, "resume")
+                    return [(6, b"\x02"), (0, b"\x06"), (14, new_sid), (5, tag)]
+            if len(ios_pk) != 32:
+                return [(6, b"\x02"), (7, b"\x02")]
+            self.va = refacc.VerifyAccessory(w.ident, w.rb(32))
+            m2 = self.va.m2(ios_pk)
+            w.recorded_m2 = list(m2)
+            return m2
+        if st == b"\x03" and self.va is not None:
+            va, self.va = self.va, None
+            if self.who != "genuine":
+                # the impostor takes whatever it is sent; it can derive keys because the exchange key was its own
+                self.install(va.shared, None)
+                return [(6, b"\x04")]
+            if not va.check_m3(list(req.items())):
+                return [(6, b"\x04"), (7, b"\x02")]
+            w.resume = (refacc.hk(va.shared, b"Pair-Verify-ResumeSessionID-Salt", b"Pair-Verify-ResumeSessionID-Info", 8), va.shared)
+            self.install(va.shared, "verify")
+            return [(6, b"\x04")]
+        return [(6, bytes([((st or b"\0")[0] + 1) & 0xFF])), (7, b"\x01")]
+
+    def serve(self, name, op, body):
+        """a HAP request of the session -> (PDU status, body); the impostor makes its answers up"""
+        w = self.w
+        mark = GENUINE if self.who == "genuine" else FORGED
+        if op == 3:
+            v = {"name": mark.encode(), "version": b"1.1.0", "on": b"\x01"}.get(name, b"\x00")
+            return 0, refacc.tlv([(1, v)])
+        if op == 2 and name == "pairings":
+            try:
+                m1 = refacc.untlv(refacc.untlv(body).get(1, b""))
+            except Exception:  # noqa: BLE001
+                return 6, b""
+            reply = [(6, b"\x02")] + ([(1, (mark + "-CONTROLLER").encode()), (3, w.ident.ios_ltpk), (11, b"\x01")] if m1.get(0) == b"\x05" else [])
+            return 0, refacc.tlv([(1, refacc.tlv(reply))])
+        if op == 8:
+            if body[:1] == b"\x02":
+                return 0, refacc.tlv([(1, struct.pack("<H", 2)), (2, b"\x01"), (3, bytes.fromhex(ADDR.replace(":", "")))])
+            return 0, b""
+        return (0, b"") if op in (2, 4, 5, 7) else (6, b"")
+
+    def whose_keys(self, blob, nonce_of):
+        """diagnostics only: does this blob open under the session keys of an EARLIER link?"""
+        from cryptography.exceptions import InvalidTag
+        for other in self.w.sides:
+            for keys in (other.all_keys if other is not self else other.all_keys[:-1] if self.keys else other.all_keys):
+                for c in range(0, 48):
+                    try:
+                        ChaCha20Poly1305(keys[0]).decrypt(nonce_of(c), blob, b"")
+                        return f" - it opens under session keys negotiated {'earlier on this link' if other is self else 'on link %d' % other.idx} (counter {c})"
+                    except InvalidTag:
+                        pass
+        return ""
+
+
+class GattHandle:
+    max_write_without_response_size = None
+
+    def __init__(self, name, iid, uuid):
+        self.name, self.iid, self.handle, self.uuid = name, iid, iid, uuid
+        self.properties = ["read", "write"]
+
+
+class GattLink:
+    """stands in for the bleak client of ONE GATT connection: moves GATT reads and writes between the library and whoever
+    answers on this link (HAP-BLE PDU reassembly, response fragments, the session's AEAD), and can lose the link every way a
+    BLE stack does"""
+
+    def __init__(self, world, side, callback, cfg):
+        self.w, self.side, self.callback = world, side, callback
+        self.address = ADDR
+        self.is_connected = True
+        self.services = []
+        self.mtu = cfg.get("mtu", 158)
+        self.latency = cfg.get("latency", 0.0)
+        self.unrestricted = bool(cfg.get("unrestricted"))
+        self.dead = None              # exception class every GATT operation raises from now on (the link is gone, the stack has not said so)
+        self.on_disconnect = "clean"  # clean: callback delivered | nocb: not (yet) delivered | raise:<Exc>: disconnect() raises, no callback
+        self.callback_due = False
+        self.partial, self.pending, self.notify = {}, {}, {}
+        self.ios = 0
+        self.trap = None              # [n, action]: at the n-th GATT operation from now the action happens (the caller gives up / the link is lost)
+
+    # ---- what the library calls
+    async def _io(self, what):
+        self.ios += 1
+        self.w.observe(what)
+        if self.trap is not None:
+            self.trap[0] -= 1
+            if self.trap[0] <= 0:
+                action, self.trap = self.trap[1], None
+                action()
+                await asyncio.sleep(0)
+        if self.latency:
+            await asyncio.sleep(self.latency)
+        if self.dead:
+            raise link_exc(self.dead, "the link is gone")
+        if not self.is_connected:
+            raise link_exc("BleakError", "Not connected")
+        if self.w.ioerr is not None:
+            self.w.ioerr[0] -= 1
+            if self.w.ioerr[0] <= 0:
+                name, self.w.ioerr = self.w.ioerr[1], None
+                raise link_exc(name, "GATT operation failed")
+
+    async def get_characteristic(self, service_type, char_type, iid=None):
+        name, known = BLE_NAMES.get(str(char_type).upper(), ("other", 99))
+        return GattHandle(name, known if iid is None else iid, str(char_type))
+
+    async def get_characteristic_iid(self, char):
+        return char.iid
+
+    def determine_fragment_size(self, overhead, handle=None):
+        return self.mtu - 3 - overhead
+
+    async def write_gatt_char(self, handle, data, response=None):
+        await self._io("gatt-write")
+        self._rx(handle, bytes(data))
+
+    async def read_gatt_char(self, handle):
+        await self._io("gatt-read")
+        q = self.pending.get(handle.iid)
+        out = bytearray(q.pop(0) if q else struct.pack("<BBB", 2, 0, 6))
+        if self.w.faults["garble"] and handle.name != "verify":
+            self.w.faults["garble"] -= 1
+            out[len(out) // 2] ^= 0x10
+        return out
+
+    async def start_notify(self, handle, callback):
+        await self._io("gatt-start-notify")
+        self.notify[handle.iid] = callback
+
+    async def stop_notify(self, handle):
+        self.notify.pop(handle.iid, None)
+
+    async def clear_cache(self):
+        return True
+
+    async def disconnect(self):
+        self.w.observe("gatt-disconnect")
+        self.side.closed = True
+        if self.on_disconnect.startswith("raise:"):
+            # a dead D-Bus socket, an adapter that went away, a stack time-out: bleak raises and never delivers the callback;
+            # whatever else is tried on this client object afterwards fails the same way (is_connected keeps saying True)
+            if not self.unrestricted:
+                self.dead = self.on_disconnect[6:]
+            raise link_exc(self.on_disconnect[6:], "disconnect failed")
+        self.is_connected = False
+        if self.on_disconnect == "clean":
+            self.deliver_callback()
+        else:
+            self.callback_due = True
+
+    # ---- what the harness does to the link
+    def deliver_callback(self):
+        self.callback_due = False
+        for other in self.w.sides:
+            if other is not self.side and not other.closed:
+                other.stale_reset = True
+        try:
+            self.callback(self)
+        except Exception as e:  # noqa: BLE001
+            self.w.notes.append(f"disconnected callback raised {type(e).__name__}")
+
+    def lose(self, how):
+        self.side.closed = True
+        if how.startswith("dead:"):
+            self.dead = how[5:]
+            return
+        self.is_connected = False
+        if how == "cb":
+            self.deliver_callback()
+        else:
+            self.callback_due = True
+
+    # ---- the other end of the link
+    @staticmethod
+    def nonce(c):
+        return struct.pack("<LQ", 0, c)
+
+    def _describe(self, h, data):
+        head = f"{len(data)} bytes written to '{h.name}'"
+        if len(data) >= 5 and data[0] in (0x00, 0x80) and (data[0] == 0x80 or 1 <= data[1] <= 8):
+            return head + (f" (a HAP PDU in the clear, opcode {data[1]:#04x})" if data[0] == 0 else " (a PDU continuation in the clear)")
+        return head + " (no HAP PDU in the clear: sealed under keys this link never negotiated)" + self.side.whose_keys(data, self.nonce)
+
+    def _rx(self, h, data):
+        from cryptography.exceptions import InvalidTag
+        side = self.side
+        secured = False
+        if h.name != "verify":
+            if side.keys is None:
+                side.plain.append((self.w.tick(), self._describe(h, data)))
+                if not (side.who != "genuine" and side.style == "plain"):
+                    self.pending[h.iid] = [struct.pack("<BBB", 2, data[2] if len(data) > 2 else 0, 5)]  # insufficient authentication
+                    return
+            else:
+                try:
+                    data = ChaCha20Poly1305(side.keys[0]).decrypt(self.nonce(side.rctr), data, b"")
+                except InvalidTag:
+                    side.unauth.append((self.w.tick(), self._describe(h, data)))
+                    self.pending[h.iid] = [struct.pack("<BBB", 2, 0, 5)]
+                    return
+                side.rctr += 1
+                secured = True
+        if data and data[0] & 0x80:
+            buf = self.partial.get(h.iid)
+            if buf is None:
+                return
+            buf["body"] += data[2:]
+        else:
+            if len(data) < 5:
+                self.pending[h.iid] = [struct.pack("<BBB", 2, 0, 6)]
+                return
+            _c, op, tid, _iid = struct.unpack("<BBBH", data[:5])
+            buf = self.partial[h.iid] = {"op": op, "tid": tid, "len": struct.unpack("<H", data[5:7])[0] if len(data) >= 7 else 0, "body": data[7:]}
+        if len(buf["body"]) < buf["len"]:
+            return
+        del self.partial[h.iid]
+        if h.name == "verify":
+            try:
+                value = refacc.untlv(buf["body"]).get(1, b"") if buf["op"] == 2 else None
+                status, body = (0, refacc.tlv([(1, refacc.tlv(side.on_verify(refacc.untlv(value))))])) if value is not None else (6, b"")
+            except Exception as e:  # noqa: BLE001
+                self.w.notes.append(f"the accessory could not read a pair-verify request: {type(e).__name__}")
+                status, body = 6, b""
+        else:
+            if secured:
+                side.framed.append((self.w.tick(), buf["op"], h.name))
+                side.used += 1
+            status, body = side.serve(h.name, buf["op"], buf["body"])
+        room = self.mtu - 3 - (16 if secured else 0)
+        if not body:
+            frags = [struct.pack("<BBB", 2, buf["tid"], status)]
+        else:
+            frags, rest = [struct.pack("<BBBH", 2, buf["tid"], status, len(body)) + body[:room - 5]], body[room - 5:]
+            while rest:
+                frags.append(bytes([0x82, buf["tid"]]) + rest[:room - 2])
+                rest = rest[room - 2:]
+        if secured:
+            for i, f in enumerate(frags):
+                frags[i] = ChaCha20Poly1305(side.keys[1]).encrypt(self.nonce(side.wctr), f, b"")
+                side.wctr += 1
+        self.pending[h.iid] = frags
+
+
+BLE_NAMES = {}
+_BLE_SESS_DB = {}
+
+
+def ble_session_db():
+    """a small accessory database (information, protocol information with the service signature, pairing, lightbulb) as an
+    integration restores it from its cache"""
+    if not _BLE_SESS_DB:
+        from aiohomekit.model import Accessories
+        from aiohomekit.model import Accessory as ModelAccessory
+        from aiohomekit.model.characteristics import CharacteristicsTypes as CT
+        from aiohomekit.model.services import ServicesTypes as ST
+        a = ModelAccessory(1)
+        info = a.add_service(ST.ACCESSORY_INFORMATION, iid=1)
+        info.add_char(CT.NAME, iid=2, value="cached")
+        info.add_char(CT.IDENTIFY, iid=3)
+        proto = a.add_service(ST.PROTOCOL_INFORMATION, iid=30)
+        proto.add_char(CT.SERVICE_SIGNATURE, iid=31)
+        proto.add_char(CT.VERSION, iid=32, value="1.1.0")
+        pair = a.add_service(ST.PAIRING, iid=10)
+        for name, ct, iid in (("setup", CT.PAIR_SETUP, 11), ("verify", CT.PAIR_VERIFY, 12), ("features", CT.PAIRING_FEATURES, 13), ("pairings", CT.PAIRING_PAIRINGS, 14)):
+            pair.add_char(ct, iid=iid)
+            BLE_NAMES[str(ct).upper()] = (name, iid)
+        bulb = a.add_service(ST.LIGHTBULB, iid=20)
+        bulb.add_char(CT.ON, iid=21)
+        for name, ct, iid in (("on", CT.ON, 21), ("name", CT.NAME, 2), ("identify", CT.IDENTIFY, 3), ("signature", CT.SERVICE_SIGNATURE, 31), ("version", CT.VERSION, 32)):
+            BLE_NAMES[str(ct).upper()] = (name, iid)
+        accs = Accessories()
+        accs.add_accessory(a)
+        _BLE_SESS_DB["db"] = accs.serialize()
+    return _BLE_SESS_DB["db"]
+
+
+BLE_ENTRIES = {  # public entry points of BlePairing: (opcode, endpoint of the request that must have carried a call that returns; None: no such request), call
+    "la": (None, lambda p, w: p.list_accessories_and_characteristics()),
+    "get": ((3, "name"), lambda p, w: p.get_characteristics([(1, 2)])),
+    "geton": ((3, "on"), lambda p, w: p.get_characteristics([(1, 21)])),
+    "put": ((2, "on"), lambda p, w: p.put_characteristics([(1, 21, True)])),
+    "ident": ((2, "identify"), lambda p, w: p.identify()),
+    "lp": ((2, "pairings"), lambda p, w: p.list_pairings()),
+    "addp": ((2, "pairings"), lambda p, w: p.add_pairing("other-ctl", w.ident.ios_ltpk.hex(), "User")),
+    "rmp": ((2, "pairings"), lambda p, w: p.remove_pairing("other-ctl")),
+    "pop": (None, lambda p, w: p.async_populate_accessories_state(force_update=True)),
+    "pop0": (None, lambda p, w: p.async_populate_accessories_state()),
+    "sub": (None, lambda p, w: p.subscribe([(1, 21)])),
+    "sub2": (None, lambda p, w: p.subscribe([(1, 2)])),
+    "cao": (None, lambda p, w: p.close_after_operation()),
+    "tp": (None, lambda p, w: p.thread_provision("0e080000000000010000")),  # disconnects by itself, opens a fresh session, then fails: this accessory has no Thread service
+}
+
+
+def judge_links(world, calls, transport):
+    """the property on the books of whoever answered on each link and on what the callers were handed"""
+    problems = []
+    for s in world.sides:
+        who = "the genuine accessory" if s.who == "genuine" else f"an IMPOSTOR without the long-term key ({s.style})"
+        for _, what in s.plain[:3]:
+            problems.append((f"{transport}-session/traffic-before-proof", f"link {s.idx} ({who} answers): {what} although no pair-verify and no honoured pair-resume has completed ON THIS LINK "
+                             f"({s.verifies} pair-verify request(s) were sent on it) - session traffic to a peer that has proved nothing in this session"))
+        for _, what in s.unauth[:3]:
+            problems.append((f"{transport}-session/not-under-session-keys", f"link {s.idx} ({who} answers): after the session of this link was set up the controller sent {what}, which does not open under this link's keys"))
+        if s.who != "genuine" and s.framed:
+            problems.append((f"{transport}-session/impostor-session", f"link {s.idx}: {who} received {len(s.framed)} request(s) sealed under keys it negotiated itself - the controller accepted its pair-verify"))
+    for idx, who, _, at in world.early[:3]:
+        problems.append((f"{transport}-session/connected-before-proof", f"({at}) the pairing reports is_connected although on the link opened last (link {idx}, {'the genuine accessory' if who == 'genuine' else 'an IMPOSTOR'} "
+                         f"answers) no pair-verify and no honoured pair-resume has completed: {world.sides[idx].verifies if idx >= 0 else 0} pair-verify request(s) were sent on that link - "
+                         "a session is reported open with a peer that has proved nothing on it"))
+    for rec in calls:
+        if rec["outcome"] != "returned":
+            if rec.get("faultless") and rec.get("keys"):
+                problems.append((f"{transport}-session/genuine-session-unusable", f"{rec['entry']} ended with {rec['outcome'][7:]} although nothing but calls had happened so far and the specification-conformant genuine accessory "
+                                 "answered every request: the session with the authentic accessory was refused or the two ends do not hold the same keys"))
+            continue
+        if FORGED in rec["result"]:
+            i = rec["result"].index(FORGED)
+            problems.append((f"{transport}-session/unauthenticated-answer-accepted", f"{rec['entry']} returned ...{rec['result'][max(0, i - 60):i + 40]}... - data made up by an impostor that never proved possession of the long-term key"))
+        need = rec.get("need")
+        if need is not None and not rec.get("after_shutdown"):
+            # (the genuine accessory files a request under `framed` only while it holds a session proved on that link)
+            if not any(s.who == "genuine" for s in world.sides for q, op, name in s.framed if (op, name) == tuple(need) and rec["start"] <= q <= rec["end"]):
+                problems.append((f"{transport}-session/returned-without-authenticated-exchange", f"{rec['entry']} returned normally ({rec['result'][:80]}) although the genuine accessory received no opcode {need[0]:#04x} request on "
+                                 f"'{need[1]}' under the keys of a session proved on its link while the call ran"))
+    for q, what in world.delivered:
+        if FORGED in what:
+            problems.append((f"{transport}-session/unauthenticated-event-delivered", f"listeners were handed {what[:120]} - data made up by an impostor that never proved possession of the long-term key"))
+            break
+    return problems
+
+
+async def ble_scenario(loop, hist):
+    """run one BLE history; returns (problems, stats)"""
+    import aiohomekit.controller.ble.pairing as blep
+    from aiohomekit.characteristic_cache import CharacteristicCacheMemory
+    from aiohomekit.controller.ble.manufacturer_data import HomeKitAdvertisement
+    from aiohomekit.model.categories import Categories
+    from aiohomekit.model.status_flags import StatusFlags
+    from bleak.backends.device import BLEDevice
+    rnd = random.Random(hist["seed"])
+    w = LinkWorld(rnd)
+    db = ble_session_db()
+    links, calls, tasks = [], [], []
+    state = {"connfail": [], "trap": None, "faultless": True}
+
+    def advert(gsn, cn=1):
+        return HomeKitAdvertisement(name="acc", id=ADDR.lower(), status_flags=StatusFlags(0), config_num=cn, category=Categories(5), setup_hash=b"", address=ADDR, state_num=gsn)
+
+    async def establish(device, name, disconnected_callback, **kw):
+        await asyncio.sleep(hist.get("connect", 0.05))
+        if state["connfail"]:
+            raise link_exc(state["connfail"].pop(0), "could not connect")
+        link = GattLink(w, w.new_side(), disconnected_callback, hist)
+        links.append(link)
+        if state.get("trap"):
+            link.trap, state["trap"] = state["trap"], None
+        return link
+
+    ctrl = mock.MagicMock()
+    ctrl._char_cache = CharacteristicCacheMemory()
+    p = blep.BlePairing(ctrl, dict(w.ident.pairing_data(connection="BLE"), AccessoryAddress=ADDR), device=BLEDevice(ADDR, "acc", None), description=advert(1))
+    p.restore_accessories_state(db, 1, None, 1)
+    w.probe = lambda: p.is_connected
+    p.dispatcher_connect(lambda ev: w.delivered.append((w.tick(), repr(ev))))
+
+    async def call(entry):
+        w.observe("call " + entry)
+        need, fn = BLE_ENTRIES[entry]
+        if entry == "tp" and links and links[-1].on_disconnect == "nocb" and not hist.get("unrestricted"):
+            links[-1].on_disconnect = "clean"  # thread_provision disconnects the client itself and leaves the reset to the callback (fault model: see ASSUMPTIONS)
+        rec = {"entry": entry, "start": w.tick(), "outcome": "pending", "need": need, "after_shutdown": w.shutdown, "result": "", "faultless": state["faultless"]}
+        calls.append(rec)
+        try:
+            r = await fn(p, w)
+            rec["outcome"], rec["result"] = "returned", repr(r)
+        except asyncio.CancelledError:
+            rec["outcome"] = "cancelled"
+        except BaseException as e:  # noqa: BLE001
+            rec["outcome"] = "raised:" + type(e).__name__
+            rec["keys"] = isinstance(e, (E.AuthenticationError, E.EncryptionError))
+        finally:
+            rec["end"] = w.tick()
+            w.observe("end of " + entry)
+
+    async def finish(ts, limit=600.0):
+        ts = [t for t in ts if not t.done()]
+        if ts:
+            await asyncio.wait(ts, timeout=limit)
+        await settle(loop)
+        w.observe("quiescent")
+
+    gsn = 1
+    with mock.patch.object(blep, "establish_connection", establish):
+        for step in hist["steps"]:
+            kind, args = step[0], step[1:]
+            cur = links[-1] if links else None
+            if kind not in FAULTLESS or (kind == "op" and args[0] == "cao"):
+                state["faultless"] = False  # from here on a failing call may be the history's doing
+            if kind == "op":
+                t = asyncio.ensure_future(call(args[0]))
+                tasks.append(t)
+                await finish([t])
+            elif kind == "par":      # calls issued back to back, running concurrently
+                ts = [asyncio.ensure_future(call(e)) for e in args[0]]
+                tasks.extend(ts)
+                await finish(ts)
+            elif kind in ("opc", "opl"):  # at the n-th GATT operation of the call the caller gives up (is cancelled) / the link is lost (cb, dead:<Exc>)
+                t = asyncio.ensure_future(call(args[0]))
+                tasks.append(t)
+                state["trap"] = [args[1], t.cancel] if kind == "opc" else [args[1], (lambda how=args[2]: links[-1].lose(how))]
+                if cur is not None and cur.is_connected and not cur.dead:
+                    cur.trap, state["trap"] = state["trap"], None
+                await finish([t])
+                state["trap"] = None
+                for lk in links:
+                    lk.trap = None
+            elif kind == "disc":     # how the stack behaves when the library disconnects the current link, whenever that is
+                if cur:
+                    cur.on_disconnect = args[0]
+            elif kind == "close":
+                if cur:
+                    cur.on_disconnect = args[0]
+                try:
+                    await asyncio.wait_for(p.close(), 600)
+                except Exception as e:  # noqa: BLE001
+                    w.notes.append(f"close() raised {type(e).__name__}")
+                await finish([])
+            elif kind == "lost":     # cb / nocb / dead:<Exc>
+                if args[0] == "nocb" and not hist.get("unrestricted"):
+                    # the stack clears is_connected and calls the disconnected callback in one go; "a little later" is only told
+                    # apart from "at once" while the library is not in the middle of anything
+                    await finish([t for t in asyncio.all_tasks(loop) if t is not asyncio.current_task(loop)], limit=120.0)
+                    cur = links[-1] if links else None
+                if cur and not cur.side.closed:
+                    cur.lose(args[0])
+                    if len(args) > 1:
+                        cur.on_disconnect = args[1]
+                await finish([])
+            elif kind == "latecb":   # disconnected callbacks the stack still owed are delivered now (nothing is in flight)
+                await finish([t for t in asyncio.all_tasks(loop) if t is not asyncio.current_task(loop)], limit=120.0)
+                for lk in links:
+                    if lk.callback_due:
+                        lk.deliver_callback()
+                await finish([])
+            elif kind == "peer":
+                w.peer, w.style = args[0], (args[1] if len(args) > 1 else "own-key")
+            elif kind == "reboot":   # the accessory lost its resumable session
+                w.resume = None
+            elif kind == "resume":
+                w.honour_resume = bool(args[0])
+            elif kind == "connfail":
+                state["connfail"] = [args[1]] * args[0]
+            elif kind == "garble":   # the next answer(s) of the session arrive damaged
+                w.faults["garble"] = args[0] if args else 1
+            elif kind == "ioerr":    # the n-th GATT operation from now fails once with this exception; the link stays up
+                w.ioerr = [args[1], args[0]]
+            elif kind == "adv":      # an advertisement with a new state number: the controller polls the accessory by itself
+                gsn += 1
+                try:
+                    p._async_description_update(advert(gsn))
+                except Exception as e:  # noqa: BLE001
+                    w.notes.append(f"_async_description_update raised {type(e).__name__}")
+                await asyncio.sleep(0)
+                await finish([t for t in asyncio.all_tasks(loop) if t is not asyncio.current_task(loop)], limit=120.0)
+            elif kind == "notify":   # whoever answers on the current link raises a GATT notification on every characteristic notifications were started for
+                # the genuine accessory raises notifications in a session both ends demonstrably hold: it has received a request sealed
+                # under this session's keys, and no disconnected callback owed for another link has been delivered since
+                ok = cur is not None and cur.side.who == "genuine" and cur.side.proved and cur.side.used > 0 and not cur.side.stale_reset
+                if cur and cur.is_connected and not cur.dead and (ok or hist.get("unrestricted")):
+                    for iid, cb in list(cur.notify.items()):
+                        try:
+                            cb(iid, b"")
+                        except Exception as e:  # noqa: BLE001
+                            w.notes.append(f"notification callback raised {type(e).__name__}")
+                    await asyncio.sleep(0)
+                    await finish([t for t in asyncio.all_tasks(loop) if t is not asyncio.current_task(loop)], limit=120.0)
+            elif kind == "wait":
+                await asyncio.sleep(args[0])
+                await finish([])
+            elif kind == "shutdown":
+                if cur:
+                    cur.on_disconnect = args[0] if args else "clean"
+                w.shutdown = True
+                try:
+                    await asyncio.wait_for(p.shutdown(), 600)
+                except Exception as e:  # noqa: BLE001
+                    w.notes.append(f"shutdown() raised {type(e).__name__}")
+                await finish([])
+        for t in tasks:
+            t.cancel()
+        for lk in links:
+            lk.on_disconnect = "clean"
+        try:
+            await asyncio.wait_for(p.close(), 600)
+        except Exception as e:  # noqa: BLE001
+            w.notes.append(f"close raised {type(e).__name__}")
+        await settle(loop)
+    stats = {"links": len(links), "proved": [s.proved or "-" for s in w.sides], "who": [s.who for s in w.sides], "calls": [(r["entry"], r["outcome"]) for r in calls],
+             "framed": sum(len(s.framed) for s in w.sides), "notes": w.notes,
+             "per_link": [(s.who, s.verifies, len(s.framed), len(s.unauth), len(s.plain)) for s in w.sides]}
+    return judge_links(w, calls, "ble"), stats
+
+
+# ---------------------------------------------------------------------------------------------------------------- CoAP
+COAP_IIDS = {2: "name", 14: "pairings", 21: "on", 0: "database"}
+
+
+def _t8(tag, val):
+    val = bytes(val)
+    if not val:
+        return bytes([tag, 0])
+    return b"".join(bytes([tag, len(val[o:o + 255])]) + val[o:o + 255] for o in range(0, len(val), 255))
+
+
+def coap_session_database():
+    """the accessory database as the TLV8 body of a HAP-over-CoAP database read (encoded here, not by the library): accessory
+    information (name), pairing (pairings), lightbulb (on)"""
+    def char(typ, iid, props, fmt):
+        return _t8(0x13, _t8(0x04, bytes([typ])) + _t8(0x05, struct.pack("<H", iid)) + _t8(0x0A, struct.pack("<H", props)) + _t8(0x0C, struct.pack("<BbHBH", fmt, 0, 0x2700, 1, 0)))
+
+    def svc(typ, iid, chars):
+        return _t8(0x15, _t8(0x07, struct.pack("<H", iid)) + _t8(0x06, bytes([typ])) + _t8(0x14, b"\x00\x00".join(chars)))
+    svcs = [svc(0x3E, 1, [char(0x23, 2, 0x10, 0x19)]), svc(0x55, 10, [char(0x50, 14, 0x30, 0x1B)]), svc(0x43, 20, [char(0x25, 21, 0x10 | 0x20 | 0x80, 0x01)])]
+    return _t8(0x18, _t8(0x19, _t8(0x1A, struct.pack("<H", 1)) + _t8(0x16, b"\x00\x00".join(svcs))))
+
+
+class CoapLink:
+    """stands in for ONE aiocoap context - one UDP endpoint of the controller; the accessory keeps its sessions per endpoint"""
+
+    def __init__(self, world, side, root):
+        self.w, self.side, self.root = world, side, root
+        self.gone = False     # whoever answered here has left the network: nothing is answered any more
+        self.rebooted = False  # the accessory lost its sessions: it answers 4.04 to what it cannot place
+        self.shut = False
+        self.pairings_m2 = None
+        self.stale = 0
+
+    @staticmethod
+    def nonce(c):
+        return struct.pack("<4xQ", c)
+
+    def request(self, msg):
+        from types import SimpleNamespace
+        import aiocoap.error as cerr
+        self.w.observe("coap-request")
+        fut = asyncio.get_running_loop().create_future()
+        f = self.w.faults
+        verify = "/".join(msg.opt.uri_path) == "2"
+        if self.shut:
+            fut.set_exception(cerr.LibraryShutdown())
+        elif self.gone:
+            pass  # nobody is there any more: the library runs into its time-out
+        elif f["neterr"] and not verify:
+            # the datagram never leaves: nothing reaches the accessory
+            f["neterr"] -= 1
+            fut.set_exception(cerr.NetworkError("network unreachable"))
+        else:
+            try:
+                reply = self._respond(msg)
+            except Exception as e:  # noqa: BLE001
+                self.w.notes.append(f"the CoAP accessory could not process a request: {type(e).__name__}: {e}")
+                reply = None
+            if reply is not None and not self.gone:
+                if f["vsilent" if verify else "silent"]:
+                    f["vsilent" if verify else "silent"] -= 1  # the answer is lost: the library runs into its time-out
+                else:
+                    if f["garble"] and reply.payload and not verify:
+                        f["garble"] -= 1
+                        b = bytearray(reply.payload)
+                        b[len(b) // 2] ^= 0x10
+                        reply.payload = bytes(b)
+                    fut.set_result(reply)
+        return SimpleNamespace(response=fut)
+
+    async def shutdown(self):
+        self.shut = True
+        self.side.closed = True
+
+    def _respond(self, msg):
+        from types import SimpleNamespace
+        from aiocoap.numbers.codes import Code
+        from cryptography.exceptions import InvalidTag
+        side = self.side
+        path = "/".join(msg.opt.uri_path)
+        payload = bytes(msg.payload)
+        if path == "2":
+            return SimpleNamespace(code=Code.CHANGED, payload=refacc.tlv(side.on_verify(refacc.untlv(payload))))
+        if path in ("0", "1"):
+            # identify / pair-setup of an unpaired accessory: a paired one refuses; no session is involved
+            return SimpleNamespace(code=Code.BAD_REQUEST, payload=b"")
+        what = f"a {len(payload)}-byte POST to /{path}"
+        if self.rebooted and side.keys is None:
+            self.stale += 1
+            return SimpleNamespace(code=Code.NOT_FOUND, payload=b"")
+        if side.keys is None:
+            side.plain.append((self.w.tick(), what + " (session traffic)" + side.whose_keys(payload, self.nonce)))
+            return SimpleNamespace(code=Code.NOT_FOUND, payload=b"")
+        try:
+            plain = ChaCha20Poly1305(side.keys[0]).decrypt(self.nonce(side.rctr), payload, b"")
+        except InvalidTag:
+            side.unauth.append((self.w.tick(), what + side.whose_keys(payload, self.nonce)))
+            return SimpleNamespace(code=Code.NOT_FOUND, payload=b"")
+        side.rctr += 1
+        mark = GENUINE if side.who == "genuine" else FORGED
+        out, off = b"", 0
+        while off + 7 <= len(plain):
+            _c, op, tid, iid, ln = struct.unpack("<BBBHH", plain[off:off + 7])
+            body = plain[off + 7:off + 7 + ln]
+            off += 7 + ln
+            side.framed.append((self.w.tick(), op, COAP_IIDS.get(iid, str(iid))))
+            st, rb = 0, b""
+            if op == 0x09:
+                rb = coap_session_database()
+            elif op == 0x03:
+                if iid == 14:
+                    rb = _t8(0x01, self.pairings_m2 or refacc.tlv([(6, b"\x02")]))
+                    self.pairings_m2 = None
+                else:
+                    rb = _t8(0x01, {2: mark.encode(), 21: b"\x01"}.get(iid, b"\x00"))
+            elif op == 0x02 and iid == 14:
+                m1 = refacc.untlv(refacc.untlv(body).get(1, b""))
+                self.pairings_m2 = refacc.tlv([(6, b"\x02")] + ([(1, (mark + "-CONTROLLER").encode()), (3, self.w.ident.ios_ltpk), (11, b"\x01")] if m1.get(0) == b"\x05" else []))
+            elif op not in (0x02, 0x04, 0x05, 0x0B, 0x0C):
+                st = 1
+            out += struct.pack("<BBBH", 0x02, tid, st, len(rb)) + rb
+        enc = ChaCha20Poly1305(side.keys[1]).encrypt(self.nonce(side.wctr), out, b"")
+        side.wctr += 1
+        return SimpleNamespace(code=Code.CHANGED, payload=enc)
+
+
+COAP_ENTRIES = {  # public entry points of CoAPPairing: ((opcode, endpoint) of a request that must have carried a call that returns), call
+    "la": ((0x09, "database"), lambda p, w: p.list_accessories_and_characteristics()),
+    "pop": ((0x09, "database"), lambda p, w: p.async_populate_accessories_state(force_update=True)),
+    "get": ((0x03, "name"), lambda p, w: p.get_characteristics([(1, 2)])),
+    "geton": ((0x03, "on"), lambda p, w: p.get_characteristics([(1, 21)])),
+    "put": ((0x02, "on"), lambda p, w: p.put_characteristics([(1, 21, True)])),
+    "lp": ((0x02, "pairings"), lambda p, w: p.list_pairings()),
+    "rmp": ((0x02, "pairings"), lambda p, w: p.remove_pairing("other-ctl")),
+    "sub": (None, lambda p, w: p.subscribe([(1, 21)])),
+    "sub2": (None, lambda p, w: p.subscribe([(1, 2)])),
+    "unsub": (None, lambda p, w: p.unsubscribe([(1, 21)])),
+    "close": (None, lambda p, w: p.close()),
+}
+
+
+async def coap_scenario(loop, hist):
+    """run one CoAP history; returns (problems, stats)"""
+    from types import SimpleNamespace
+    import aiohomekit.controller.coap.connection as coapc
+    from aiocoap.numbers.codes import Code
+    from aiohomekit.characteristic_cache import CharacteristicCacheMemory
+    from aiohomekit.controller.coap.pairing import CoAPPairing
+    from aiohomekit.model.categories import Categories
+    from aiohomekit.model.feature_flags import FeatureFlags
+    from aiohomekit.model.status_flags import StatusFlags
+    from aiohomekit.zeroconf import HomeKitService
+    rnd = random.Random(hist["seed"])
+    w = LinkWorld(rnd)
+    links, calls, tasks, problems = [], [], [], []
+    state = {"faultless": True}
+
+    def new_link(root, aux=False):
+        link = CoapLink(w, w.new_side(aux), root)
+        links.append(link)
+        return link
+
+    class FakeContext:
+        @staticmethod
+        async def create_server_context(root, bind=None, **kw):
+            await asyncio.sleep(hist.get("connect", 0.01))
+            return new_link(root)
+
+        @staticmethod
+        async def create_client_context(*a, **kw):
+            await asyncio.sleep(hist.get("connect", 0.01))
+            return new_link(None, aux=True)
+
+    def service(port):
+        return HomeKitService(name="acc", id=ADDR.lower(), model="m", feature_flags=FeatureFlags(0), status_flags=StatusFlags(0), config_num=1, state_num=1, category=Categories(5),
+                              protocol_version="1.1", type="_hap._udp.local.", address="fd00::1", addresses=["fd00::1"], port=port)
+
+    controller = SimpleNamespace(pairings={}, _char_cache=CharacteristicCacheMemory())
+    port = 5683
+    with mock.patch.object(coapc, "Context", FakeContext):
+        p = CoAPPairing(controller, dict(w.ident.pairing_data(hosts=("fd00::1",), port=port, connection="CoAP")))
+        p.restore_accessories_state(ble_session_db(), 1, None, None)
+        p.description = service(port)
+        w.probe = lambda: bool(p.is_connected) or bool(p.is_available) or bool(p.connection.is_connected)
+        p.dispatcher_connect(lambda ev: w.delivered.append((w.tick(), repr(ev))))
+
+        async def call(entry):
+            w.observe("call " + entry)
+            need, fn = COAP_ENTRIES[entry]
+            rec = {"entry": entry, "start": w.tick(), "outcome": "pending", "need": need, "after_shutdown": w.shutdown, "result": "", "faultless": state["faultless"]}
+            calls.append(rec)
+            try:
+                r = await fn(p, w)
+                rec["outcome"], rec["result"] = "returned", repr(r)
+            except asyncio.CancelledError:
+                rec["outcome"] = "cancelled"
+            except BaseException as e:  # noqa: BLE001
+                rec["outcome"] = "raised:" + type(e).__name__
+                rec["keys"] = isinstance(e, (E.AuthenticationError, E.EncryptionError))
+            finally:
+                rec["end"] = w.tick()
+                w.observe("end of " + entry)
+
+        async def finish(ts, limit=600.0):
+            ts = [t for t in ts if not t.done()]
+            if ts:
+                await asyncio.wait(ts, timeout=limit)
+            await settle(loop)
+            w.observe("quiescent")
+
+        for step in hist["steps"]:
+            kind, args = step[0], step[1:]
+            cur = links[-1] if links else None
+            if kind not in FAULTLESS:
+                state["faultless"] = False
+            if kind == "op":
+                t = asyncio.ensure_future(call(args[0]))
+                tasks.append(t)
+                await finish([t])
+            elif kind == "par":
+                ts = [asyncio.ensure_future(call(e)) for e in args[0]]
+                tasks.extend(ts)
+                await finish(ts)
+            elif kind == "opc":      # the caller gives up after dt seconds
+                t = asyncio.ensure_future(call(args[0]))
+                tasks.append(t)
+                await asyncio.sleep(args[1])
+                t.cancel()
+                await finish([t])
+            elif kind in ("silent", "neterr", "garble", "vsilent"):
+                w.faults[kind] = args[0] if args else 1
+            elif kind == "reboot":   # the accessory restarts: every session and the resumable secret are gone
+                w.resume = None
+                for lk in links:
+                    if lk.side.who == "genuine":
+                        lk.side.keys, lk.rebooted = None, True
+            elif kind == "peer":     # whoever answered so far leaves the network; new endpoints are answered by the named peer
+                for lk in links:
+                    lk.gone = True
+                w.peer, w.style = args[0], (args[1] if len(args) > 1 else "own-key")
+            elif kind == "endpoint":  # zeroconf reports another port: the library drops its context
+                port += 1
+                try:
+                    p._async_description_update(service(port))
+                except Exception as e:  # noqa: BLE001
+                    w.notes.append(f"_async_description_update raised {type(e).__name__}")
+                await asyncio.sleep(0)
+                await finish([t for t in asyncio.all_tasks(loop) if t is not asyncio.current_task(loop)], limit=120.0)
+            elif kind == "event":    # whoever answers on the context opened last pushes an event to the controller's event resource
+                if cur is not None and cur.root is not None and not cur.shut and not cur.gone and () in getattr(cur.root, "_resources", {}):
+                    side = cur.side
+                    body = _t8(0x01, b"\x01")
+                    pdu = struct.pack("<BHH", 0, 21, len(body)) + body
+                    sent = getattr(cur, "ev_sent", 0)  # the accessory's event counter on this link: one per event it sends
+                    if side.keys is not None:
+                        payload = ChaCha20Poly1305(side.keys[2]).encrypt(CoapLink.nonce(sent), pdu, b"")
+                    else:
+                        payload = pdu if side.style == "plain" else w.rb(len(pdu) + 16)
+                    cur.ev_sent = sent + 1
+                    n0 = len(w.delivered)
+                    try:
+                        r = await cur.root._resources[()].render_put(SimpleNamespace(payload=payload))
+                        code = r.code
+                    except Exception as e:  # noqa: BLE001
+                        code = "raised " + type(e).__name__
+                    in_step = getattr(cur, "ev_in_step", True)  # every earlier event on this link was taken: the two counters agree by construction
+                    cur.ev_in_step = in_step and code == Code.VALID
+                    if side.who == "genuine" and side.proved and side.keys is not None and not side.closed and in_step and code == Code.NOT_FOUND:
+                        problems.append(("coap-session/event-key-differs", f"link {side.idx}: event number {sent} the genuine accessory sealed under Event-Read-Encryption-Key of the session proved on this link "
+                                         f"(every earlier one was taken) was answered with {code}: the two ends do not hold the same event key"))
+                    if (side.who != "genuine" or not side.proved) and len(w.delivered) > n0:
+                        problems.append(("coap-session/unauthenticated-event-delivered", f"link {side.idx}: an event pushed by a peer that has proved nothing on this link reached the listeners: {w.delivered[-1][1][:80]}"))
+                await finish([])
+            elif kind == "wait":
+                await asyncio.sleep(args[0])
+                await finish([])
+            elif kind == "shutdown":
+                w.shutdown = True
+                try:
+                    await asyncio.wait_for(p.shutdown(), 600)
+                except Exception as e:  # noqa: BLE001
+                    n = f"shutdown() raised {type(e).__name__}"
+                    if n not in w.notes:
+                        w.notes.append(n)
+                await finish([])
+        for t in tasks:
+            t.cancel()
+        await settle(loop)
+    stats = {"links": len(links), "proved": [s.proved or "-" for s in w.sides], "who": [s.who for s in w.sides], "calls": [(r["entry"], r["outcome"]) for r in calls],
+             "framed": sum(len(s.framed) for s in w.sides), "notes": w.notes}
+    return problems + judge_links(w, calls, "coap"), stats
+
+
+def run_link_history(hist):
+    loop = simnet.VLoop()
+    asyncio.set_event_loop(loop)
+    try:
+        return loop.run_until_complete({"ble-session": ble_scenario, "coap-session": coap_scenario}[hist["stream"]](loop, hist))
+    finally:
+        try:
+            pend = [t for t in asyncio.all_tasks(loop) if not t.done()]
+            for t in pend:
+                t.cancel()
+            if pend:
+                loop.run_until_complete(asyncio.gather(*pend, return_exceptions=True))
+            loop.run_until_complete(loop.shutdown_asyncgens())
+        except Exception:  # noqa: BLE001
+            pass
+        loop.close()
+
+
+BLE_OPS = ["la", "get", "get", "geton", "put", "ident", "lp", "addp", "rmp", "pop", "pop0", "sub", "sub2", "tp"]
+BLE_REQ_OPS = ["get", "geton", "put", "ident", "lp", "addp", "rmp"]  # calls that send a request of their own
+DISC_MODES = ["clean", "nocb"] + ["raise:" + x for x in LINK_EXC]
+
+
+def ble_endings():
+    """every way a GATT link can end (name, steps): the library disconnects it - close(), close_after_operation(), the automatic
+    close after a request that was cancelled / whose answer was damaged / that hit a GATT error - while the stack delivers the
+    disconnected callback at once, late or never (disconnect() raises each exception class the library handles); or the link
+    dies by itself - reported with its callback, with the callback a little later, not reported at all (every GATT operation
+    raises and the next request finds out), in the middle of a request"""
+    out = []
+    for m in DISC_MODES:
+        out.append(("close/" + m, [["close", m]]))
+        out.append(("close-after-operation/" + m, [["disc", m], ["op", "cao"]]))
+        out.append(("cancelled-request/" + m, [["disc", m], ["opc", "get", 2]]))
+        out.append(("damaged-answer/" + m, [["disc", m], ["garble"], ["op", "geton"]]))
+    for x in LINK_EXC:
+        for m in ("clean", "nocb", "raise:" + x):
+            out.append((f"dead:{x}/{m}", [["lost", "dead:" + x, m]]))
+        out.append((f"gatt-error:{x}", [["disc", "raise:" + x], ["ioerr", x, 2], ["op", "put"]]))
+    out.append(("lost/cb", [["lost", "cb"]]))
+    out.append(("lost/cb-later", [["lost", "nocb"], ["wait", 0.5], ["latecb"]]))
+    out.append(("lost-in-request/cb", [["opl", "get", 2, "cb"]]))
+    out.append(("lost-in-request/dead", [["disc", "raise:EOFError"], ["opl", "get", 2, "dead:BleakError"]]))
+    return out
+
+
+def ble_grid(rng):
+    """link 1 verified -> every ending -> {the genuine accessory, an impostor} answers on the next link -> every entry point"""
+    out = []
+    nexts = [["la"], ["get"], ["put"], ["pop"], ["lp"], ["pop0"], ["sub2", "geton"], ["ident"], ["tp"]]
+    for name, ending in ble_endings():
+        for nxt in nexts:
+            for who in ("genuine", "impostor"):
+                steps = [["op", rng.choice(["la", "get", "pop", "sub"])]] + [list(x) for x in ending]
+                if who == "impostor":
+                    steps.append(["peer", "impostor", rng.choice(IMPOSTOR_STYLES)])
+                elif rng.random() < 0.3:
+                    steps.append(rng.choice([["reboot"], ["resume", False]]))
+                steps += [["op", e] for e in nxt] + [["latecb"], ["op", "get"]]
+                out.append({"stream": "ble-session", "seed": rng.randrange(1 << 30), "mtu": rng.choice([64, 158, 512]), "latency": rng.choice([0.0, 0.0, 0.01]), "end": name, "steps": steps})
+    return out
+
+
+def gen_ble_history(rng):
+    steps, endings = [], ble_endings()
+    healthy = False  # the generator's own guess that a proved session is up (only used to place notifications)
+    for epoch in range(rng.choice([2, 3, 3, 4, 5])):
+        who = "genuine" if epoch == 0 or rng.random() < 0.7 else "impostor"
+        steps.append(["peer", who, rng.choice(IMPOSTOR_STYLES)])
+        if rng.random() < 0.2:
+            steps.append(rng.choice([["reboot"], ["resume", False], ["resume", True], ["connfail", 1, rng.choice(LINK_EXC)]]))
+        if who == "genuine" and rng.random() < 0.25:
+            # notifications are started 1.5 s after a subscription; then the accessory raises one
+            steps += [["op", rng.choice(["sub", "sub2"])], ["op", "get"], ["wait", 2.0], ["notify"]]
+            healthy = True
+        for _ in range(rng.choice([1, 1, 2, 3])):
+            r = rng.random()
+            if r < 0.12:
+                steps.append(["par", [rng.choice(BLE_OPS) for _ in range(rng.choice([2, 3]))]])
+            elif r < 0.2:
+                steps.append(["adv"])
+            elif r < 0.3:
+                steps.append(["wait", rng.choice([0.1, 2.0, 2.0])])
+            elif r < 0.38 and healthy:
+                steps.append(["notify"])
+            else:
+                steps.append(["op", rng.choice(BLE_OPS)])
+                healthy = who == "genuine"
+        if rng.random() < 0.15:
+            steps.append(["latecb"])
+        name, ending = rng.choice(endings)
+        ending = [list(x) for x in ending]
+        for st in ending:  # vary the entry point and the instant inside the request
+            if st[0] in ("opc", "opl"):
+                st[1], st[2] = rng.choice(BLE_REQ_OPS), rng.choice([1, 2, 2, 3, 5])
+            elif st[0] == "op" and st[1] not in ("cao",):
+                st[1] = rng.choice(BLE_REQ_OPS)
+            elif st[0] == "ioerr":
+                st[2] = rng.choice([1, 2, 3, 4])
+        steps += ending
+        healthy = False
+    if rng.random() < 0.3:
+        steps += [["shutdown", rng.choice(DISC_MODES)], ["op", rng.choice(BLE_OPS)]]
+    steps += [["latecb"], ["op", rng.choice(BLE_REQ_OPS)]]
+    return {"stream": "ble-session", "seed": rng.randrange(1 << 30), "mtu": rng.choice([64, 158, 512]), "latency": rng.choice([0.0, 0.0, 0.01, 0.05]), "steps": steps}
+
+
+COAP_OPS = ["la", "get", "get", "geton", "put", "lp", "rmp", "sub", "sub2", "unsub", "close", "pop"]
+COAP_REQ_OPS = ["la", "get", "geton", "put", "lp", "rmp", "pop"]
+
+
+def coap_endings():
+    """every way a CoAP session can end: a request that is never answered (the library's time-out), a network error, a damaged
+    answer, an accessory that restarted and answers 4.04, a new port announced over zeroconf, a caller that gives up inside a
+    request, a pair-verify that times out, the accessory leaving the network"""
+    return [("timeout", [["silent", 1], ["op", "get"]]), ("network-error", [["neterr", 1], ["op", "put"]]), ("damaged-answer", [["garble", 1], ["op", "get"]]),
+            ("restart-404", [["reboot"], ["op", "geton"]]), ("endpoint-changed", [["endpoint"]]), ("cancelled-request", [["silent", 1], ["opc", "get", 3.0]]),
+            ("endpoint-changed+verify-timeout", [["endpoint"], ["vsilent", 1], ["op", "get"]]), ("none", [])]
+
+
+def coap_grid(rng):
+    out = []
+    for name, ending in coap_endings():
+        for nxt in COAP_REQ_OPS + ["sub"]:
+            for who in ("genuine", "impostor"):
+                steps = [["op", rng.choice(["la", "get", "sub"])], ["event"]] + [list(x) for x in ending]
+                if who == "impostor":
+                    steps.append(["peer", "impostor", rng.choice(IMPOSTOR_STYLES)])
+                steps += [["op", nxt], ["event"], ["op", "get"], ["event"]]
+                out.append({"stream": "coap-session", "seed": rng.randrange(1 << 30), "end": name, "steps": steps})
+    return out
+
+
+def gen_coap_history(rng):
+    steps, endings = [], coap_endings()
+    who = "genuine"
+    for epoch in range(rng.choice([2, 3, 3, 4])):
+        new = "genuine" if epoch == 0 or rng.random() < 0.7 else "impostor"
+        if new != who or new == "impostor":
+            steps.append(["peer", new, rng.choice(IMPOSTOR_STYLES)])
+        who = new
+        for _ in range(rng.choice([1, 2, 3])):
+            r = rng.random()
+            if r < 0.15:
+                steps.append(["par", [rng.choice(COAP_OPS) for _ in range(rng.choice([2, 3]))]])
+            elif r < 0.3:
+                steps.append(["event"])
+            elif r < 0.35:
+                steps.append(["wait", rng.choice([0.5, 20.0])])
+            else:
+                steps.append(["op", rng.choice(COAP_OPS)])
+        ending = [list(x) for x in rng.choice(endings)[1]]
+        for st in ending:
+            if st[0] in ("op", "opc"):
+                st[1] = rng.choice(COAP_REQ_OPS)
+        steps += ending
+    if rng.random() < 0.3:
+        steps += [["shutdown"], ["op", rng.choice(COAP_OPS)]]
+    steps += [["op", rng.choice(COAP_REQ_OPS)], ["event"]]
+    return {"stream": "coap-session", "seed": rng.randrange(1 << 30), "connect": rng.choice([0.01, 0.2]), "steps": steps}
+
+
+def link_stream(ctx, rng):
+    """BLE and CoAP session histories: a grid (ending x who answers next x entry point) and random histories of 2-5 links"""
+    ble, coap = ble_grid(rng), coap_grid(rng)
+    if not ctx.thorough():
+        ble, coap = rng.sample(ble, ctx.budget(260, len(ble))), rng.sample(coap, ctx.budget(60, len(coap)))
+    hists = ble + [gen_ble_history(rng) for _ in range(ctx.budget(150, 6000))] + coap + [gen_coap_history(rng) for _ in range(ctx.budget(80, 3000))]
+    sampled = set()
+    reported = Counter()
+    for hist in hists:
+        ctx.evaluations += 1
+        t = hist["stream"].split("-")[0]
+        try:
+            problems, stats = run_link_history(hist)
+        except Exception as e:  # noqa: BLE001
+            problems, stats = [(f"{t}-session/exc {type(e).__name__}", f"the history could not be run to its end: {type(e).__name__}: {e}")], {"links": 0, "proved": [], "who": [], "calls": [], "framed": 0, "notes": []}
+        ctx.nontrivial.add((hist["stream"], hist.get("end") or tuple(s[0] for s in hist["steps"] if s[0] not in ("op", "wait", "peer")), tuple(stats["who"]), tuple(stats["proved"]), tuple(sorted({o for _, o in stats["calls"]}))))
+        ctx.dist[f"{t}-session:links={min(stats['links'], 6)}"] += 1
+        for who, proved in zip(stats["who"], stats["proved"]):
+            ctx.dist[f"{t}-session:link:{who}:{proved}"] += 1
+        for entry, outcome in stats["calls"]:
+            ctx.dist[f"{t}-session:call:{entry}:{outcome}"] += 1
+        for st in hist["steps"]:
+            if st[0] not in ("op", "par", "wait", "peer"):
+                ctx.dist[f"{t}-session:step:{st[0]}" + (":" + str(st[1]).split(":")[0] if st[0] in ("close", "lost", "disc") else "")] += 1
+        if "end" in hist:
+            ctx.dist[f"{t}-session:grid-ending:{hist['end'].split(':')[0].split('/')[0]}"] += 1
+        for n in stats["notes"]:
+            if f"{t}-session: {n}" not in ctx.notes and len(ctx.notes) < 30:
+                ctx.notes.append(f"{t}-session: {n}")
+        if hist["stream"] not in sampled and "end" not in hist and len(ctx.samples) < 10:
+            sampled.add(hist["stream"])
+            ctx.samples.append(hist)
+        done = set()
+        for sig, text in problems:
+            if sig not in done:
+                done.add(sig)
+                reported[sig] += 1
+                ctx.dist[f"violations:{sig}"] += 1
+                if reported[sig] <= 20:  # every failing history is counted; the first twenty per signature are kept as replayable inputs
+                    ctx.violation(sig, text, hist)
+
+
+LINK_PROBES = [  # histories outside the fault model of the gated stream (see ASSUMPTIONS): what the library does there is recorded, not asserted
+    ("a peer whose pair-verify FAILED keeps its GATT link; subscribe() starts notifications on it and a notification makes the library read the characteristic in the clear and hand the answer to listeners",
+     {"stream": "ble-session", "seed": 11, "unrestricted": True, "steps": [["op", "get"], ["close", "clean"], ["peer", "impostor", "plain"], ["op", "get"], ["op", "sub2"], ["wait", 2.0], ["notify"]]}),
+    ("a link the stack reports as gone (is_connected False) whose disconnected callback has not been delivered: the next call opens a new link and skips pair-verify (keys of the previous link)",
+     {"stream": "ble-session", "seed": 13, "unrestricted": True, "steps": [["op", "get"], ["lost", "nocb"], ["op", "get"]]}),
+    ("the same, with close() in between (close() returns early on a client that is not connected and resets nothing)",
+     {"stream": "ble-session", "seed": 14, "unrestricted": True, "steps": [["op", "get"], ["lost", "nocb"], ["close", "clean"], ["op", "la"]]}),
+    ("a disconnected callback owed for an EARLIER link arrives while the next session is up: its keys are dropped, the next notification is answered with a read in the clear",
+     {"stream": "ble-session", "seed": 15, "unrestricted": True, "steps": [["op", "sub"], ["op", "get"], ["wait", 2.0], ["close", "nocb"], ["op", "get"], ["wait", 2.0], ["latecb"], ["notify"]]}),
+    ("close() whose disconnect() raises while the link stays usable, concurrent with a pair-verify a background task (subscribe) has in flight: the exchange completes after close() has reset the state, its keys survive and the next link skips pair-verify",
+     {"stream": "ble-session", "seed": 16, "unrestricted": True, "latency": 0.05, "steps": [["op", "get"], ["close", "nocb"], ["op", "get"], ["latecb"], ["op", "sub2"], ["close", "raise:TimeoutError"], ["op", "get"]]}),
+    ("thread_provision() disconnects the client itself (force_fresh_connection) and leaves the reset to the disconnected callback: when that callback comes after disconnect() has returned, the fresh link is used with the old keys",
+     {"stream": "ble-session", "seed": 17, "unrestricted": True, "steps": [["op", "get"], ["disc", "nocb"], ["op", "tp"], ["op", "get"]]}),
+]
+
+
+def link_probes(ctx):
+    for what, hist in LINK_PROBES:
+        try:
+            problems, _ = run_link_history(hist)
+        except Exception as e:  # noqa: BLE001
+            problems = [("probe/exc", f"{type(e).__name__}: {e}")]
+        sigs = sorted({s for s, _ in problems})
+        ctx.dist["link-probe:" + ("manifest" if sigs else "not-manifest")] += 1
+        ctx.notes.append(f"ble-session probe outside the gated fault model (noted, not asserted): {what} -> " + (", ".join(sigs) if sigs else "nothing observed") + f"; input {json.dumps(hist['steps'])}")
+
+
 def replay(ctx, driver, c):
     stream = c.get("stream")
     if stream == "session":
         problems, _ = run_session(c)
+        return "; ".join(f"{s}: {t}" for s, t in problems) or None
+    if c.get("model") == "ble-lifecycle":
+        from harness.c01_blemodel import replay_blemodel
+        return "; ".join(replay_blemodel(ctx, driver, c)) or None
+    if stream in ("ble-session", "coap-session"):
+        problems, _ = run_link_history(c)
         return "; ".join(f"{s}: {t}" for s, t in problems) or None
     if stream == "verify" and "record" in c:
         rec = c["record"]
